@@ -44,6 +44,7 @@ var errClasses = []struct{ needle, class string }{
 	{"invalid deviation type", "deviate-unknown-kind"},
 	{"unresolvable type", "deviate-bad-type"},
 	{"does not have a valid parent", "deviate-no-parent"},
+	{"was already removed", "deviate-already-removed"},
 	{"invalid config value", "bad-tristate"},
 	{"invalid max-elements", "bad-max-elements"},
 	{"invalid min-elements", "bad-min-elements"},
